@@ -362,6 +362,9 @@ func toLogEntry(e Entry) shared.LogEntry {
 }
 
 func runStreams(c *Case) string {
+	if c.ID%2 == 1 { // through the HTTP handlers: query_range, and (every fourth) the instant query of a log selector
+		return viaHandler(c, false, c.ID%4 == 3)
+	}
 	out := make(chan []shared.LogEntry)
 	res := make(chan model.QueryRangeOutput)
 	go func() {
@@ -454,7 +457,12 @@ func drain(ch chan model.QueryRangeOutput) string {
 	return sb.String()
 }
 
+func jsonValid(body string) bool { return json.Valid([]byte(body)) }
+
 func runMatrix(c *Case) string {
+	if c.ID%2 == 1 {
+		return viaHandler(c, true, false)
+	}
 	svc := planSetup(c, true)
 	ch, err := svc.QueryRange(context.Background(), `rate({a="b"}[1m])`, 0, 1e18, 1000, 100, true)
 	if err != nil {
@@ -464,6 +472,9 @@ func runMatrix(c *Case) string {
 }
 
 func runVector(c *Case) string {
+	if c.ID%2 == 1 {
+		return viaHandler(c, true, true)
+	}
 	svc := planSetup(c, true)
 	ch, err := svc.QueryInstant(context.Background(), `rate({a="b"}[1m])`, 1e18, 1000, 100)
 	if err != nil {
@@ -1705,6 +1716,10 @@ func fillFloatTexts(c *Case) {
 }
 
 func run(c *Case) {
+	if c.Kind == "shortcut" {
+		runShortcut(c)
+		return
+	}
 	if c.Kind == "numfmt" {
 		runNum(c)
 		return
@@ -1824,7 +1839,7 @@ func main() {
 		return
 	}
 	r := hx.Rand(f.Seed)
-	mix := []string{"streams", "matrix", "tags", "prommatrix", "vector", "labels", "streams", "tail", "series", "promvector",
+	mix := []string{"streams", "matrix", "tags", "prommatrix", "vector", "labels", "shortcut", "tail", "series", "promvector",
 		"streams", "tagvalues", "matrix", "vector", "labels", "prommatrix", "tail", "series", "promscalar", "promerror",
 		"streams", "matrix", "tags", "prommatrix", "numfmt", "tagvalues", "streams", "tail", "promvector", "matrix",
 		"trace", "search", "searchql", "tagsv2", "trace", "matrix", "vector", "valuesv2", "series", "numfmt"}
@@ -1832,7 +1847,9 @@ func main() {
 	var waits []func()
 	for i := 0; i < f.N; i++ {
 		kind := mix[i%len(mix)]
-		if kind == "numfmt" {
+		if kind == "shortcut" {
+			cases[i] = Case{ID: i, Kind: kind, Class: "shortcut"}
+		} else if kind == "numfmt" {
 			cases[i] = genNumCase(r, i)
 		} else if tempoKinds[kind] {
 			cases[i] = genTempoCase(r, i, kind)
